@@ -30,7 +30,10 @@ Code read (line numbers of /repo at the time of writing):
 Locks: `live` = `Live._lock` / `Progress._lock`, `console` = `Console._lock`,
 `record` = `Console._record_buffer_lock`; all three are re-entrant.
 
-Not modelled (stated in the MANIFEST): the text pending in the sys.stdout/stderr FileProxy objects (the harness has redirection on but never writes to them),
+Redirected `sys.stdout` / `sys.stderr` (round 4): `Op.proxyPrint lines` is a `FileProxy.write` that completes lines (file_proxy.py:28-47,
+`with console: console.print(lines)`); which lines a `write()` hands over (the first one carries what was pending in the proxy) is a
+parameter, observed on real rich.  Not modelled (stated in the MANIFEST): the assembly of those lines from the text pending in the
+FileProxy objects, and the flush of pending text by `stop()` (`flushProxies` prints nothing: the harness completes every partial line first),
 Jupyter, the auto-refresh thread (it is one more thread whose program is `refresh`), styles (what a print
 renders to is a parameter: its lines), preemption inside one source line.
 
@@ -126,6 +129,11 @@ inductive Op where
   | advance (id n : Nat)
   /-- `console.export_text(clear=…)` / `export_html(clear=…)`: read the record, optionally empty it, under the record lock -/
   | export (clear : Bool)
+  /-- `sys.stdout.write(text)` / `sys.stderr.write(text)` through the `FileProxy` a running display installs, for a `text` that
+  completes at least one line (file_proxy.py:28-47): `with console: console.print(Text("\n").join(lines), …)` — a print inside one more
+  buffering level; `lines` = the completed lines (the first one prefixed by what was pending in the proxy, see `Model/ConcProxy`).
+  A `write` that completes no line touches no console state at all (it is no operation of this model). -/
+  | proxyPrint (lines : List Line)
 deriving Repr, DecidableEq
 
 inductive Act where
@@ -267,9 +275,10 @@ def code (cfg : Cfg) : Op → List GAct
     | .progress => [ga (.acq .live), ga (.advance id n), ga (.rel .live)]
     | _ => []
   | .export clear => [ga (.acq .record), ga .exportRead, ga (.exportEnd clear), ga (.rel .record)]
+  | .proxyPrint ls => [ga .enter] ++ printBody cfg.kind (.pushUser ls) ++ [ga .exitDec] ++ flushCode
 
 def Op.applies (k : DKind) : Op → Bool
-  | .print _ | .capture _ | .nested _ _ _ | .export _ => true
+  | .print _ | .capture _ | .nested _ _ _ | .export _ | .proxyPrint _ => true
   | .update _ _ => k == .live
   | .refresh | .start | .stop => k != .none
   | .advance _ _ => k == .progress
